@@ -431,7 +431,10 @@ def make_runner(cfg):
 
 def _explore_cfg(arg):
     cfg, bound, cap = arg
-    st = explore.dfs(make_runner(cfg), bound, max_execs=cap)
+    import time
+    # wall-clock guard per configuration: a cap is reported as a cap
+    st = explore.dfs(make_runner(cfg), bound, max_execs=cap,
+                     deadline=time.time() + 420)
     return st.as_dict()
 
 
